@@ -20,6 +20,6 @@ Extraction "model.ml"
   init_world step live get doc_of to_jv ids invalidates_handles set_on_unbound chain_get chain_set add_typed nest_typed doc_move proxy_assign get_or_add_level get_level
   ps0 pstep alloc_from_last max_pools count sp_add sp_deref sp_refs
   a_init astep elements
-  sb_init sb_step n_content
+  sb_init sb_step n_content bf_init bf_step
   copy_array_1d copy_array_2d copy_string
   mp_binary_raw mp_extension_raw mp_binary_of_raw mp_extension_of_raw.
